@@ -100,6 +100,17 @@ TEnd(e) ==   \* end of a free-running run: everybody came back, nothing held, no
   /\ e.entries = 0
   /\ UNCHANGED <<allvars, inside>>
 
+(* retention probe: one goroutine acquired and released e.n distinct keys one after the other and  *)
+(* kept none of them; e.per1k = bytes the heap kept per 1000 keys (after collections, the smaller  *)
+(* of two rounds).  No residue: no entry is left and what is kept does not grow with the number of *)
+(* keys (8 bytes a key would be 8000).                                                             *)
+RetainBound == 4000
+TRetain(e) ==
+  /\ \A k \in Keys : inside[k] = <<>>
+  /\ e.n >= 1000 /\ e.entries = 0
+  /\ e.per1k >= 0 /\ e.per1k < RetainBound
+  /\ UNCHANGED <<allvars, inside>>
+
 TraceNext ==
   /\ l <= Len(TraceLog) /\ l' = l + 1
   /\ LET e == TraceLog[l] IN
@@ -109,6 +120,7 @@ TraceNext ==
          [] e.ev = "run"   -> TRun(e)
          [] e.ev = "mon"   -> TMon(e)
          [] e.ev = "end"   -> TEnd(e)
+         [] e.ev = "retain" -> TRetain(e)
          [] OTHER -> FALSE
 
 TraceSpec == TraceInit /\ [][TraceNext]_tvars
